@@ -1,11 +1,11 @@
 #!/bin/bash
-# soak.sh <prop> <first seed> <count> [budget_s] [workers]: many quick-tier batches with different seeds,
+# soak.sh <prop> <first seed> <count> [budget_s] [workers] [tier]: many quick-tier batches with different seeds,
 # evidence/replays kept apart from the committed ones.  Prints one line per seed.
-prop="$1"; first="$2"; count="$3"; budget="${4:-120}"; workers="${5:-6}"
+prop="$1"; first="$2"; count="$3"; budget="${4:-120}"; workers="${5:-6}"; tier="${6:-quick}"
 mkdir -p soak_out
 for ((s=first; s<first+count; s++)); do
   env VERIF_SEED=$s VERIF_BUDGET_S=$budget VERIF_WORKERS=$workers VERIF_EVIDENCE_DIR=soak_out/ev_$s VERIF_REPLAY_DIR=soak_out/rp \
-    ./check "$prop" quick > soak_out/${prop}_$s.log 2>&1
+    ./check "$prop" "$tier" > soak_out/${prop}_$s.log 2>&1
   echo "$prop seed=$s exit=$? $(grep '^runs=' soak_out/${prop}_$s.log | cut -c1-70)"
   grep -E "^violation|^HARNESS" soak_out/${prop}_$s.log | cut -c1-600
 done
